@@ -654,6 +654,21 @@ func registerIntrinsics(ex *Executor) {
 		a := constStr(ex, "filepath.Ext", args)
 		return smt.StrC(filepath.Ext(a[0])), cNext
 	}
+	// strings.NewReplacer(...).Replace(s): some function of s (which pairs are replaced is not interpreted)
+	I["strings.NewReplacer"] = func(ex *Executor, st *State, cc *CallCtx, args []Val) (Val, ctl) {
+		t := ex.lookupType("strings", "Replacer")
+		return ex.alloc(st, t, "strings.Replacer", ex.zero(t)), cNext
+	}
+	I["(*strings.Replacer).Replace"] = func(ex *Executor, st *State, cc *CallCtx, args []Val) (Val, ctl) {
+		x := args[1].(*smt.Term)
+		return smt.App("uf_replace", smt.String, x), cNext
+	}
+	// verifJSONEquivalent(a, b): symbolically "the same text" (the encoder is uninterpreted); natively "both are one valid JSON
+	// line and decode to the same value" — which is what the property asks for, so a change of escaping style that keeps the
+	// document equivalent does not replay
+	I["@verifJSONEquivalent"] = func(ex *Executor, st *State, cc *CallCtx, args []Val) (Val, ctl) {
+		return smt.Eq(args[0].(*smt.Term), args[1].(*smt.Term)), cNext
+	}
 	// strings.TrimSpace: computed on literals; on symbolic text an idempotent uninterpreted function (a string may or may not
 	// carry surrounding white space)
 	I["strings.TrimSpace"] = func(ex *Executor, st *State, cc *CallCtx, args []Val) (Val, ctl) {
